@@ -561,6 +561,37 @@ example : (run State.serverDefault [.remove (.known .override) masterId,
       .insert .override a 1 (some masterId) none, .insert .override masterId 1 none none])
     = (State.serverDefault, [.err .prot, .err .prot, .err .prot]) := by decide
 
+/-- The hypotheses of the placement theorems are satisfiable in every relative position of rule
+and anchor. `cba` is the reachable content list `[c, b, a]`. -/
+def cba : State := exec State.empty [.insert .content a 1 none none, .insert .content b 1 none none,
+  .insert .content c 1 none none]
+theorem cba_reachable : Reachable cba := ⟨.empty, _, rfl⟩
+
+/-- `insert_after_immediately_after`, rule before its anchor (moves forward), adjacent: -/
+example : step cba (.insert .content c 1 (some b) none) = ((step cba (.insert .content c 1 (some b) none)).1, .ok)
+    ∧ position (cba.get .content) c = some 0 ∧ position (cba.get .content) b = some 1 := by decide
+/-- … not adjacent (`c` after `a`), rule after its anchor (`a` after `c`), and a new rule: -/
+example : (step cba (.insert .content c 1 (some a) none)).2 = .ok
+    ∧ (step cba (.insert .content a 1 (some c) none)).2 = .ok
+    ∧ (step cba (.insert .content (bs "n") 1 (some b) none)).2 = .ok := by decide
+/-- `insert_before_immediately_before`, rule after / before its anchor, with and without `after`: -/
+example : (step cba (.insert .content a 1 none (some c))).2 = .ok
+    ∧ (step cba (.insert .content c 1 none (some a))).2 = .ok
+    ∧ (step cba (.insert .content a 1 (some c) (some b))).2 = .ok
+    ∧ (step cba (.insert .content (bs "n") 1 (some c) (some b))).2 = .ok := by decide
+/-- `replace_keeps_enabled_and_place` and `insert_new_unpositioned`: -/
+example : lookup (cba.get .content) b = some (mk b)
+    ∧ (step cba (.insert .content b 2 none none)).2 = .ok
+    ∧ lookup (cba.get .content) (bs "n") = none
+    ∧ (step cba (.insert .content (bs "n") 2 none none)).2 = .ok := by decide
+/-- `error_leaves_unchanged`: errors of every class occur in reachable states. -/
+example : (step cba (.insert .content a 1 (some b) (some c))).2 = .err .order
+    ∧ (step cba (.insert .content a 1 (some a) none)).2 = .err .unknown
+    ∧ (step cba (.insert .content (bs "a/b") 1 none none)).2 = .err .invalid
+    ∧ (step cba (.remove (.known .content) (bs ".x"))).2 = .err .unknown
+    ∧ (step State.serverDefault (.remove (.known .content) (bs ".m.rule.contains_user_name"))).2
+        = .err .prot := by decide
+
 /-- `Reachable` is inhabited by non-trivial rulesets. -/
 example : Reachable { State.empty with content := [mk b, mk c, mk a] } :=
   ⟨.empty, [.insert .content a 1 none none, .insert .content b 1 none none,
